@@ -104,16 +104,17 @@ func tablesFP(st storage.Store) string {
 }
 
 type nodeOpts struct {
-	id        int
-	name      string
-	dir       string
-	raftPort  int
-	bootstrap bool
-	seeds     []string
-	snapThr   uint64
-	trailing  uint64
-	store     storage.ManagedStore    // optional pre-built (wrapped) store
-	snapCh    chan *protocol.Snapshot // optional: the snapshots channel (not drained by the harness)
+	id           int
+	name         string
+	dir          string
+	raftPort     int
+	bootstrap    bool
+	seeds        []string
+	snapThr      uint64
+	trailing     uint64
+	store        storage.ManagedStore    // optional pre-built (wrapped) store
+	snapCh       chan *protocol.Snapshot // optional: the snapshots channel (not drained by the harness)
+	applyTimeout time.Duration           // optional: RaftApplyTimeout
 }
 
 // startNode starts a real RaftNode (raft + rocks) in this process.
@@ -132,6 +133,9 @@ func startNode(o nodeOpts) (*consensus.RaftNode, chan *protocol.Snapshot, error)
 	opts.RaftLeaseTimeout = 300 * time.Millisecond
 	opts.RaftCommitTimeout = 20 * time.Millisecond
 	opts.RaftLogPath = o.dir + "/raft"
+	if o.applyTimeout > 0 {
+		opts.RaftApplyTimeout = o.applyTimeout
+	}
 	os.MkdirAll(opts.RaftLogPath, 0755)
 	st := o.store
 	if st == nil {
